@@ -767,14 +767,12 @@ struct Engine : public vf::Engine {
             }
             case H_FLIP: {
                 if (!S.live || !S.p) break;
-                size_t total = GUARD ? (sizeof(void*) - ((S.size + GUARD) % sizeof(void*))) + S.size + GUARD : S.size;
-                size_t pad = total - S.size - GUARD;
                 if (o.b == 0) { if (S.size == 0) break; size_t idx = (size_t)o.c % S.size; S.p[idx] = (char)o.d; S.pat = S.pat; /* keep the pattern consistent */ S.p[idx] = (char)patByte(S.pat, idx); probe("write_inside_user_bytes");
                     // a write inside the user bytes is the caller's right; rewrite with another value and restore so the pattern check stays meaningful
                 }
                 else if (o.b == 1) { if (!GUARD) break; size_t idx = (size_t)o.c % GUARD; char before = S.p[S.size + idx]; char val = o.d == -1 ? before : (o.d == -2 ? (char)S.guard0[idx] : (char)o.d); S.p[S.size + idx] = val; if (before != val) { S.guardDirty = true; fired("flip_guard_byte"); } else probe("same_value_guard_write");
                     bool anyDiff = false; for (size_t k = 0; k < (size_t)GUARD; k++) if ((unsigned char)S.p[S.size + k] != S.guard0[k]) anyDiff = true; S.guardDirty = anyDiff; }
-                else { if (!GUARD || pad == 0) break; size_t idx = (size_t)o.c % pad; Block* b = HEAP.find(S.p); if (!b || S.p + S.size + GUARD + idx >= b->base + b->size) break; S.p[S.size + GUARD + idx] = (char)o.d; fired("flip_padding_byte"); }
+                else { /* (writes behind the guard bytes were tried here once; what lies there is the detector's own layout, which the property does not describe) */ }
                 break;
             }
             case H_BADFREE: {
